@@ -109,7 +109,8 @@ ScopeApply0(p, e) ==
     [] e.ev = "exit" ->
          LET i == Len(p.sc[e.t])
              s == p.sc[e.t][i]
-             pc == AbsorbCC(p, e.t, [j \in 1..i |-> IF j = i THEN e.called ELSE 0])
+             pc == AbsorbGC(AbsorbCC(p, e.t, [j \in 1..i |-> IF j = i THEN e.called ELSE 0]),
+                            IF "gc" \in DOMAIN e THEN e.gc ELSE <<>>)
              s1 == pc.sc[e.t][i]
              parentVisible == ~s1.shield /\ EffAt(pc, e.t, i - 1)
              mustAbsorb == s1.called /\ ~parentVisible
